@@ -600,9 +600,9 @@ func main() {
 	workDir = filepath.Join(*verif, ".work")
 	cacheDir = filepath.Join(*verif, ".cache")
 	if *timeout == 0 {
-		*timeout = 30
+		*timeout = 60
 		if *tier == "thorough" {
-			*timeout = 120
+			*timeout = 240
 		}
 	}
 	t0 := time.Now()
